@@ -10,6 +10,9 @@ META = {
     "level": "Decides: (R1) each of the three expanders raises ValueError for a bare '-', the license expander also for '-@' and '@'; (R2) '-*' clears everything seen so far in the two expanders and terminates the right-to-left condenser after being emitted; (R3) the condenser walks reversed(<its argument itself>) and emits a token only while its flag is not yet finalized, recording it on both arms, and its callers consume the result as an unordered set; (R4) license tokens: '*' adds the package's licenses, '@g'/'-@g' go through the group table, plain tokens add/discard themselves; (R5) the set mutated in place by incremental_expansion inside pull_data is always a fresh copy, never a stored attribute. Does NOT decide set equality for concrete streams.",
     "note": "token predicates are opaque; only the branch structure and the mutated containers are decided",
 }
+META["technique"] += "; " + 'effect analysis; accumulator-guard rule; finalized-defaults-only-seed rule'
+META["level"] += " Added after the second round of independent changes: " + '(R6) lookups are read-only on the stored tables, the expanders write only to `orig`; (R7) `orig` is replaced only when it is None (not when empty), and the finalized defaults only ever start an accumulator, they are never merged into one that already holds tokens.'
+META["technique"] += "; " + 'generic pack G on the anchored files (optional-flag shift, closures outliving a loop iteration, single-pass iterables consumed twice, %-templates built from data, in-place writes to class-level / memoised objects, generators mutating what they yielded, memo keys that are projections)'
 
 MOD = "pkgcore.ebuild.misc"
 
